@@ -323,8 +323,8 @@ impl Prop for C10 {
             self.field(v, &mut out);
             n += 1;
         }
-        for len in [0usize, 1, 2, 3, 20, 21, 64, 255, 256, 257] {
-            for rot in 0..fa.len().min(if q { 6 } else { fa.len() }) {
+        for len in [0usize, 1, 2, 3, 20, 21, 64, 255, 256, 257, 1000, 4095, 4096, 4097, 65535, 65537] {
+            for rot in 0..fa.len().min(if len > 1000 { 2 } else if q { 6 } else { fa.len() }) {
                 let v: Vec<BigUint> = (0..len).map(|k| fa[(k + rot) % fa.len()].clone()).collect();
                 self.vec_fr(&v, &mut out);
                 n += 1;
